@@ -18,6 +18,7 @@ import (
 	"time"
 
 	"github.com/hashicorp/eventlogger"
+	multierror "github.com/hashicorp/go-multierror"
 )
 
 // ---------------------------------------------------------------- scenario
@@ -136,6 +137,14 @@ func (n *hnode) Process(ctx context.Context, e *eventlogger.Event) (*eventlogger
 			}
 		}
 		err = ne
+		// ... and some report a list of errors (go-multierror), with two members or with none: whatever a node
+		// returns as its error is one warning, that very value
+		switch h % 5 {
+		case 1:
+			err = &multierror.Error{Errors: []error{ne, fmt.Errorf("a second reason of node %s", n.spec.ID)}}
+		case 2:
+			err = &multierror.Error{}
+		}
 		if h%3 != 0 {
 			out = e
 		}
@@ -689,9 +698,17 @@ func (r *Run) oracles(st eventlogger.Status, serr error, payload interface{}, st
 	for _, id := range st.CompleteSinks() {
 		gotS[string(id)]++
 	}
+	owner := map[error]string{} // the error values the nodes returned during this Send, by identity
+	for _, c := range calls {
+		if c.Err != nil {
+			owner[c.Err] = c.Node.spec.ID
+		}
+	}
 	for _, w := range st.Warnings {
 		var ne *NodeErr
-		if errors.As(w, &ne) {
+		if id, ok := owner[w]; ok {
+			gotW[id]++
+		} else if errors.As(w, &ne) {
 			gotW[ne.ID]++
 		} else {
 			fail("C02", "warning %q is not an error returned by a node during this Send", w)
